@@ -192,9 +192,16 @@ def eval_remover_flow(ctx, R, fname, en_name, en, sugar_kind, expr_remover, is_s
         problems = []
         unsupported = None
         worlds = [None] + positions + ([(f_, i_, k_, "nested") for f_, i_, k_ in positions] if not anon else [])
+        # an assignment to `_` (the value is discarded, the right-hand side is still desugared and checked)
+        discard = vname == "Substitution" and any(f_["name"] == "var" and f_["ty"].replace(" ", "") == "String" for f_ in vdef["fields"])
+        if discard:
+            worlds = worlds + [p_ + ("to-underscore",) for p_ in positions]
         for pos in worlds:
             lv = Leaves()
             node, _b = passeval.build_node(en_name, vname, vdef, lv, True)
+            if pos is not None and pos[-1] == "to-underscore":
+                node[3]["var"] = "_"
+                pos = pos[:-1]
             planted = None
             if pos is not None:
                 fld, ix, kind = pos[:3]
@@ -224,7 +231,8 @@ def eval_remover_flow(ctx, R, fname, en_name, en, sugar_kind, expr_remover, is_s
                 x = args[expr_ix] if expr_ix < len(args) else args[0]
                 handed.append(x)
                 contexts.append(args[-1])
-                out = ("O", "desugared-expression#%d" % len(made), (("carries", x),))
+                # what the remover returns is free of the sugar it removes
+                out = ("O", "desugared-expression#%d" % len(made), (("carries", x), ("is_tuple", False), ("is_anonymous_component", False), ("contains_tuple", ("PY", lambda *a: False)), ("contains_anonymous_component", ("PY", lambda *a: False)), ("meta", O("desugared-meta"))))
                 made[id(out)] = x
                 if anon:
                     return S("Ok", ("T", (Sink(), Sink(), out)))
@@ -1373,7 +1381,7 @@ def eval_parallel_prefix(ctx, R):
         res = w.call_fn(fn, [node])
         res2 = w.call_fn(fn, [other])
     except (Unsupported, Panic) as u:
-        return ctx.note("Expression::make_anonymous_parallel is outside the evaluator's subset (%s)" % u)
+        return ctx.missing(R, "Expression::make_anonymous_parallel/evaluation", "cannot be evaluated (fail closed): %s" % u)
     lost = []
     if not (isinstance(res, tuple) and len(res) > 3 and res[0] == "V" and res[2] == "AnonymousComponent"):
         lost.append("the result is not an anonymous component")
@@ -1600,3 +1608,6 @@ def run(ctx):
     rule_elimination(ctx)
     rule_contains(ctx)
     rule_binding(ctx)
+    import c13
+
+    ctx.include("C18.5", "a tuple declaration with an initialiser, `T (a, b) op e;`, declares every symbol and makes one multi-assignment with the operator written - the form the tuple remover expands element-wise (shared with C13.1)", lambda c: c13.eval_declaration_split(c, "C13.1"))
